@@ -68,7 +68,7 @@ PROPERTIES = {
                 assumptions=['std Debug of the built-in key types is injective and self-delimiting w.r.t. "|" (axioms ax_builtin_debug / ax_builtin_types); user CacheableKey impls and distinct NaN payloads are not covered'],
                 trusted=['R9 rewrites: expanded format!("{:?}", x) -> debug_fmt(&x); Vec<String>::join(sep) -> vec_join']),
     'C03': dict(units=ENGINES + WRAPPERS + ['monotone', 'wrappers_async_await', 'wrappers_global_await'], explanation='engine contracts (a lookup never removes an unexpired entry; an unbounded store keeps everything) and wrapper contracts on the real macro expansions: a hit is served without running the body, a miss runs it exactly once and stores the result (effect log). Concurrent sentence (global and async engines, configuration without limit / ttl / max_memory): unit monotone proves on the real get / insert code, under the interference projection, that every store critical section leaves every resident key resident (rely/guarantee: ghost key set threaded through the acquisitions), that a lookup returning None did not see the key at its read section, and that the key is resident when insert returns; units wrappers_async_await / wrappers_global_await: with arbitrary interference while the body runs (no lock held) the body runs at most once per call, a hit is served without it, and the call then stores its own result under its own key',
-                assumptions=['concurrent sentence: the final step from "every critical section is monotone" to "no lookup misses after a storing call has returned" is a two-line argument over the proved obligations, not mechanised', 'fixture bodies are deterministic functions of their arguments']),
+                assumptions=['concurrent sentence: the identification of a real execution with a trace of released store states, each produced by one critical section of a verified operation, is informal; the trace lemma (resident once => resident forever) is proved', 'fixture bodies are deterministic functions of their arguments']),
     'C09': dict(units=ENGINES + WRAPPERS, explanation='insert_result* leave the cache untouched for Err and store Ok; wrapper contracts on the expansions of Result / std::result::Result fixtures (sync and async, with and without max_memory): Err is never stored, Ok is'),
     'C10': dict(units=WRAPPERS, explanation='wrapper contracts on the expansions of cache_if fixtures: the predicate is consulted exactly once per body run with that key (effect log) and its verdict on (key, result) decides the store; sync Result: only Ok',
                 assumptions=['predicates are pure functions of (key, value)']),
